@@ -18,6 +18,8 @@ import Golib.HLL.Card
 import Golib.HLL.Serial
 import Golib.HLL.EstSpec
 import Golib.HLL.Abstract
+import Golib.HLL.Heap
+import Golib.HLL.Murmur
 
 namespace C14
 open HLL Prim
@@ -396,6 +398,79 @@ theorem finding_D30_exact (ln : Rat → Rat) :
     cardinality (specEst ln) 4 (stateOf 4 d30Hashes) = 22 :=
   d30_exact ln
 
+/-! ### second deepening: histories over several counters ("inputs untouched") -/
+
+/-- **frame condition of every operation**: in any world, an operation leaves every existing
+    counter other than the receiver of `offer`/`addAll` exactly as it was (precision, words, hence
+    bytes) and never removes or renumbers a counter; `new`, `merge`, `build`, `getBytes` change no
+    existing counter at all — the arguments of `Merge`, the argument of `AddAll`, the source of
+    `Build` are untouched, also when they are the receiver or occur several times -/
+theorem inputs_untouched (w : World) (op : HOp) :
+    w.length ≤ (step w op).length ∧
+    (∀ k, k < w.length → target op ≠ some k →
+      (step w op)[k]? = w[k]? ∧ bytesAt (step w op) k = bytesAt w k) :=
+  ⟨step_length_le w op, fun k hk hne => ⟨step_frame w op k hk hne, step_frame_bytes w op k hk hne⟩⟩
+
+/-- operations that panic in the code (different precision, unknown counter) change nothing -/
+theorem failing_ops_change_nothing (w : World) (i j : Nat) (js : List Nat) (a b : Counter)
+    (hi : w[i]? = some a) :
+    (w[j]? = some b → a.p ≠ b.p → step w (.addAll i j) = w) ∧
+    (argsOK w a.p js = false → step w (.merge i js) = w) :=
+  ⟨fun hj hp => addAll_mismatch w i j a b hi hj hp, fun h => merge_mismatch w i js a hi h⟩
+
+/-- **histories**: after any sequence of operations on any number of counters, every counter's
+    words are the state of the items that reached it (directly or through merges/rebuilds), it is
+    a reachable state, and its bytes are the packing of the pointwise suprema of those items -/
+theorem history_state (ops : List HOp) (hops : ∀ op ∈ ops, OpOK op) (i : Nat) (c : Counter)
+    (hc : (run ops)[i]? = some c) :
+    PrecOK c.p ∧ c.ws = stateOf c.p c.items ∧ Reach c.p c.ws ∧
+    getBytes c.p c.ws = bytesOfRegs c.p (supRank c.p c.items) :=
+  history_bytes ops hops i c hc
+
+/-- … so two counters of equal precision, in any two histories, that were reached by the same
+    *set* of items have identical bytes: order, duplication and merge structure are irrelevant -/
+theorem history_set_fn (ops1 ops2 : List HOp) (h1 : ∀ op ∈ ops1, OpOK op) (h2 : ∀ op ∈ ops2, OpOK op)
+    (i j : Nat) (c d : Counter) (hc : (run ops1)[i]? = some c) (hd : (run ops2)[j]? = some d)
+    (hp : c.p = d.p) (hset : ∀ x, x ∈ c.items ↔ x ∈ d.items) :
+    getBytes c.p c.ws = getBytes d.p d.ws :=
+  history_set_determines_bytes ops1 ops2 h1 h2 i j c d hc hd hp hset
+
+/-- `Merge` creates a new counter reached by exactly the items of the receiver and the arguments;
+    merging a counter with itself any number of times gives a copy with the same bytes -/
+theorem merge_in_histories (w : World) (i : Nat) (js : List Nat) (n : Nat) (a : Counter) (hw : WInv w)
+    (hi : w[i]? = some a) :
+    (argsOK w a.p js = true →
+      ∃ c, step w (.merge i js) = w ++ [c] ∧ c.p = a.p ∧ c.ws = stateOf c.p c.items ∧
+        (∀ x, x ∈ c.items ↔ x ∈ a.items ∨ ∃ j ∈ js, ∃ b, w[j]? = some b ∧ x ∈ b.items)) ∧
+    (∃ c, step w (.merge i (List.replicate n i)) = w ++ [c] ∧ getBytes c.p c.ws = getBytes a.p a.ws) :=
+  ⟨fun hok => merge_result w i js a hw hi hok, self_merge_bytes w i n a hw hi⟩
+
+theorem histories_keep_invariant (ops : List HOp) (hops : ∀ op ∈ ops, OpOK op) : WInv (run ops) :=
+  run_inv ops hops
+
+/-! ### second deepening: the hash the code uses -/
+
+/-- the model of `MurmurHashLong` is a 32-bit value on every item, agrees with the implementation
+    on the recorded test vectors, and therefore instantiates every "any hash" theorem above:
+    with the real hash, the bytes depend only on the set of items -/
+theorem real_hash (p : Nat) (ws : Array Nat) (xs ys : List Nat) (hp : PrecOK p) (hw : WFState p ws)
+    (h : ∀ x, x ∈ xs ↔ x ∈ ys) :
+    (∀ x, Hashed (murmurLong x)) ∧ murmurVectors.all (fun v => murmurLong v.1 == v.2) = true ∧
+    getBytes p (offerItems murmurLong p ws xs) = getBytes p (offerItems murmurLong p ws ys) :=
+  ⟨murmurLong_lt, murmur_vectors_ok,
+   items_set_determines_bytes murmurLong murmurLong_lt p ws xs ys hp hw h⟩
+
+/-! ### second deepening: the small-range test -/
+
+/-- the small-range test of the exact specification is a threshold on the integer register sum
+    (`alpha_p·m·2^32 ≤ 5·S`), and it is monotone: offers only lower the register sum, so once the
+    raw estimate has left the small range it never returns -/
+theorem small_range_threshold (ln : Rat → Rat) (p S S' : Nat) (h0 : 0 < S') (h : S' ≤ S) :
+    ((specEst ln).small (rawQ p S) (2 ^ p) = true ↔ alphaQ p * mQ p * 4294967296 ≤ 5 * (S : Rat)) ∧
+    ((specEst ln).small (rawQ p S') (2 ^ p) = true → (specEst ln).small (rawQ p S) (2 ^ p) = true) ∧
+    rawQ p S ≤ rawQ p S' :=
+  ⟨small_iff_regsum ln p S (by omega), small_antitone ln p S S' h0 h, rawQ_antitone p S S' h0 h⟩
+
 /-! ### non-vacuity -/
 
 example : PrecOK 4 ∧ PrecOK 10 ∧ PrecOK 16 := ⟨⟨by decide, by decide⟩, ⟨by decide, by decide⟩, ⟨by decide, by decide⟩⟩
@@ -431,5 +506,21 @@ example : rawQ 4 (8 * 2147483648) = 2692 / 125 ∧ roundQ (rawQ 4 (8 * 214748364
 example : alphaQ 4 = 673 / 1000 ∧ alphaQ 10 = 7213 / 10000 / (1 + 1079 / 1000 / 1024) := by decide +kernel
 example : bytesOfRegs 4 (fun r => if r = 3 then 7 else 0) =
     [0, 0, 0, 4, 0, 0, 0, 3, 0, 3, 128, 0, 0, 0, 0, 0, 0, 0, 0, 0] := by decide +kernel
+
+-- second deepening examples: a history with a self-merge, the same counter twice, a failing AddAll
+example : (run [.new 4, .new 5, .offer 0 4026531840, .offer 0 1, .addAll 0 1, .merge 0 [0, 0],
+    .build 2, .offer 2 7]).map (fun c => (c.p, c.items)) =
+    [(4, [4026531840, 1]), (5, []), (4, [4026531840, 1, 4026531840, 1, 4026531840, 1, 7]),
+     (4, [4026531840, 1, 4026531840, 1, 4026531840, 1])] := by decide +kernel
+example : bytesAt (run [.new 4, .offer 0 4026531840, .merge 0 [0, 0]]) 1 =
+    bytesAt (run [.new 4, .offer 0 4026531840]) 0 := by decide +kernel
+example : ∀ op ∈ [HOp.new 4, .offer 0 4026531840, .merge 0 [0, 0]], OpOK op := by
+  intro op h
+  simp only [List.mem_cons, List.mem_nil_iff, or_false] at h
+  rcases h with rfl | rfl | rfl
+  · exact ⟨by decide, by decide⟩
+  · show (4026531840 : Nat) < 4294967296; decide
+  · trivial
+example : murmurLong 1 = 1527037976 ∧ murmur32 4294967295 = 114743869 := by decide
 
 end C14
